@@ -76,7 +76,7 @@ def learn_prune_traces(rep, tier, seed):
             return v
 
         def fit_w(self, X, Y, I_train=None):
-            log.append(("fit", rowids(I, np.asarray(X), np.asarray(Y)), rowids(I, C, D)))
+            log.append(("fit", rowids(I, np.asarray(X), np.asarray(Y)), rowids(I, C, D), len(set(int(v) for v in np.asarray(Y).ravel()))))
             return orig_fit(self, X, Y, I_train)
 
         def predict_w(self, X, I_val=None):
@@ -136,8 +136,12 @@ def learn_prune_traces(rep, tier, seed):
                 rep.skip("prune_raised_before_first_pass")
                 continue
             if raised:
-                # survivors of an iteration single-class or empty: no prototypes exist - out of domain
-                rep.skip("prune_raised_" + meta["exception"].split(":")[0])
+                lastfit = [x for x in log if x[0] == "fit"][-1]
+                if lastfit[3] < 2:
+                    # survivors of an iteration are single-class or empty: no prototypes exist - out of domain
+                    rep.skip("prune_survivors_single_class_" + meta["exception"].split(":")[0])
+                else:
+                    rep.violation("SupervisedOPF.prune", "prune_raised_on_a_training_set_with_two_classes", meta["exception"].split(":")[0], {"case": meta})
             traces.append({"kind": "prune", "orig": init["train"], "fits": fits, "init": {"train": [], "val": []}, "iters": [], "end": {"train": [], "val": [], "ps": 0, "raised": 0}})
         metas.append(meta)
     return traces, metas
